@@ -89,7 +89,7 @@ pub const ALPHAS: [f64; 5] = [0.0, 0.3, 0.42, 0.55, 0.6];
 pub fn run(tier: Tier) -> i32 {
     let rep = Report::new("C06", tier, "model_checking");
     let nfreq = tier.pick(33usize, 257usize);
-    rep.set_rule("SCOPE: lattice of stationary mel-cepstra: vector lengths {2,3,4,5,10,25,35,40} x alpha {0,.3,.42,.55,.6} x c0 {-1,0,2} x shape patterns (each single coefficient +-, each adjacent pair, full {-1,0,1} product for length<=4) scaled to max|log H/K| in {0.5,1,2}; real Vocoder pulse response at F0=20Hz on a fresh vocoder, and on a stride of the lattice the last two frames of a run A,B,B,B (stationary after a change of gain and shape) and, sparser, of slow glides from A to B over 300 and 2500 frames followed by B,B,B; oracle = DFT log-magnitude vs sum c_m cos(m w~) within 0.01 Np at every grid frequency; distinct = distinct (length, alpha, cepstrum); non-trivial = shape != 0");
+    rep.set_rule("SCOPE: lattice of stationary mel-cepstra: vector lengths {2,3,4,5,10,25,35,40} x alpha {0,.3,.42,.55,.6} x c0 {-1,0,2} x shape patterns (each single coefficient +-, each adjacent pair, full {-1,0,1} product for length<=4) scaled to max|log H/K| in {0.5,1,2}; real Vocoder pulse response at F0=20Hz on a fresh vocoder, and on a stride of the lattice the last two frames of a run A,B,B,B (stationary after a change of gain and shape; also with A flat or with its upper half exactly zero) and, sparser, of slow glides from A to B over 300 and 2500 frames followed by B,B,B; oracle = DFT log-magnitude vs sum c_m cos(m w~) within 0.01 Np at every grid frequency; distinct = distinct (length, alpha, cepstrum); non-trivial = shape != 0");
     rep.assume("cepstra off the lattice and |log H/K| > 2 are not explored; the digital filter does not depend on the nominal sampling rate, which is raised (8k..2M) only to lengthen T0 until the truncated tail is < 1e-7 of the peak");
     let mut cases: Vec<(usize, f64, f64, f64, Vec<f64>)> = Vec::new();
     let lens: Vec<usize> = if tier == Tier::Thorough { (2..=40).collect() } else { LENS.to_vec() };
@@ -189,6 +189,17 @@ pub fn run(tier: Tier) -> i32 {
             // histories that end in B,B: the abrupt change A,B,B,B and, on a sparser stride, slow linear glides from A to B
             // (anything that remembers earlier frames and refreshes only on "large" changes shows up there)
             let mut seqs: Vec<(String, Vec<Vec<f64>>)> = vec![("A,B,B,B".to_string(), vec![a.clone(), b.clone(), b.clone(), b.clone()])];
+            // a first frame whose upper coefficients are exactly zero (a flat lead-in, or a lower-order vector padded with zeros)
+            if i % 3 == 0 {
+                let mut flat = vec![0.0; *len];
+                flat[0] = b[0] + 0.7;
+                seqs.push(("flat,B,B,B".to_string(), vec![flat, b.clone(), b.clone(), b.clone()]));
+                let mut padded = b.clone();
+                for m in (*len + 1) / 2..*len {
+                    padded[m] = 0.0;
+                }
+                seqs.push(("B with its upper half zeroed,B,B,B".to_string(), vec![padded, b.clone(), b.clone(), b.clone()]));
+            }
             if i % 24 == 0 {
                 for n in [300usize, 2500] {
                     let mut fr: Vec<Vec<f64>> = (0..n).map(|f| a.iter().zip(&b).map(|(x, y)| x + (y - x) * f as f64 / n as f64).collect()).collect();
